@@ -661,6 +661,14 @@ def _finish_cut(asm, c, text, hits, kv, secs, kind):
                 raise CutError('anchor lost: loop %d of %s (function has %d loops)' % (k, fname, len(lp)))
             at = lp[k - 1]
             lab = 'loop%d' % k
+        elif t0 == 'loop_end':
+            # last position of the k-th loop's body (just before its closing brace): a hint every path through the body passes
+            k = int(tk[1])
+            lp = _loops(text, bo)
+            if k > len(lp):
+                raise CutError('anchor lost: loop %d of %s (function has %d loops)' % (k, fname, len(lp)))
+            at = match_close(text, m, lp[k - 1])
+            lab = 'loop%d_end' % k
         elif t0 in ('before', 'after', 'before_opt', 'after_opt'):
             # *_opt: a proof hint for a statement that may legitimately be absent (e.g. a helper call that was inlined): if the
             # anchor is not there the hint is dropped -- the obligations it helped then stand or fall on their own
